@@ -3,7 +3,10 @@
 Mapping-operation sequences on the real Index (native and composite keys, inline
 and file-backed values; update, key/value/item views, == and != with ordered
 and unordered mappings that are near misses of the contents, pickle/reopen
-handles) against DC.Model.Layers.Index; two or three clients with own handles
+handles) against DC.Model.Layers.Index; the real results of the calls DC.OSpec
+covers are also compared with that Lean ordered dictionary (theorem
+irun_refines); Indexes made by FanoutCache.index() and a size limit of 0
+included; two or three clients with own handles
 on the same keys under the deterministic scheduler, linearized on that model; acceptor:
 collections.OrderedDict (keys under the documented key equality)."""
 import collections
@@ -14,12 +17,14 @@ from common import Codec
 
 KEYS = ['a', 'b', 1, 1.0, (1, 2), b'a', None, 2 ** 64, 'c']
 VALS = [0, 'v', b'y' * 20, None, [1] * 9, 2.5]
-UNSTORABLE_EXCLUDED = ('setdefault',)      # until the model's setdefault propagates a failing add
+UNSTORABLE_EXCLUDED = ()
 UNSTORABLE = 'x\ud800'       # text that cannot be stored: rejected with an exception, nothing changes (C01)
 
 
 def gen_history(rng, length):
     cfg = {'mfs': rng.choice([8, 16]), 'proto': rng.choice([2, 4, 5])}
+    cfg['via'] = rng.choice([None, None, 'fanout'])          # the object FanoutCache.deque()/index() hands out
+    cfg['limN'] = rng.choice([2 ** 30, 2 ** 30, 0])          # a size limit of 0: still nothing may be evicted
     ops = []
     mirror = collections.OrderedDict()
     for _ in range(length):
@@ -180,6 +185,48 @@ def acceptor(hist, io):
     return None
 
 
+
+
+def against_lean_spec(hists, impl_out, head):
+    """the results of the REAL code against the executable Lean specification (`osop` lines: the same
+    fields as the `lop` lines, answered by the reference structure of the refinement theorem).
+    -> (number of results compared, [disagreement])"""
+    import corr
+    lines, index = [], []
+    for i, io in enumerate(impl_out):
+        for j, (line, ans) in enumerate(io):
+            if line.startswith('lcfg '):
+                lines.append(line)
+                index.append(None)
+            elif line.startswith('lop '):
+                lines.append(head + ' ' + line[4:])
+                index.append((i, j))
+    got = corr.run_driver(lines)
+    out, compared, seen = [], 0, set()
+    for ij, l, g in zip(index, lines, got):
+        if ij is None or ij[0] in seen:
+            continue
+        i, j = ij
+        want = impl_out[i][j][1].split(' | ')[0]
+        compared += 1
+        if g != want:
+            seen.add(i)
+            nth = sum(1 for (l2, _) in impl_out[i][:j] if l2.startswith('lop '))
+            out.append({'history': i, 'op_index': nth, 'line': l, 'impl': want, 'spec': g})
+    return compared, out
+
+
+OSPEC_OPS = {'getitem', 'setitem', 'delitem', 'setdefault', 'pop', 'popitem', 'peekitem', 'len', 'iter', 'riter', 'clear', 'update'}
+
+
+def spec_history(rng, length):
+    """a history of the calls the ordered-dictionary specification DC.OSpec covers (theorem irun_refines)"""
+    h = gen_history(rng, length * 2)
+    h['ops'] = [op for op in h['ops'] if op['m'] in OSPEC_OPS][:length] + [{'m': 'iter', 'now': 1000}]
+    h['state_every'] = 0
+    return h
+
+
 def conc_case(args):
     """two or three clients, each with its own Index handle on one directory, work on the same one or
     two keys (assignment, setdefault, deletion, pop, popitem, look-up) under the deterministic
@@ -212,18 +259,18 @@ def conc_case(args):
     n = rng.choice([2, 2, 3])
     programs = {i: [op() for _ in range(rng.randint(1, 2))] for i in range(n)}
     scheds = []
-    bound = 16 if tier == 'quick' else 60
+    bound = 16 if tier == 'quick' else 28
     for a in range(n):
         for b in range(n):
             if a != b:
                 for k in range(0, bound):
                     scheds.append([a] * k + [b] * 300 + [a] * 300)
     # two preemptions: a runs k steps, b runs j steps, a finishes, b finishes (windows inside a retry loop)
-    for k in range(1, 7 if tier == 'quick' else 12):
-        for j in range(1, 7 if tier == 'quick' else 12):
+    for k in range(1, 7 if tier == 'quick' else 9):
+        for j in range(1, 7 if tier == 'quick' else 9):
             scheds.append([0] * k + [1] * j + [0] * 300 + [1] * 300)
             scheds.append([1] * k + [0] * j + [1] * 300 + [0] * 300)
-    for _ in range(6 if tier == 'quick' else 40):
+    for _ in range(6 if tier == 'quick' else 20):
         scheds.append(rng.choices(range(n), k=rng.randint(5, 80)))
     out = []
     for sch in scheds:
@@ -266,8 +313,22 @@ def run(tier, seed, rng, known, replay):
     hists = [gen_history(rng, rng.choice([10, 25, 60])) for _ in range(n)]
     r = base.check_histories('C12', hists, ('result', 'state'), acceptor=acceptor, known=known, runner=layers.layer_chunk)
     dist, distinct = base.op_distribution(hists, r['impl_out'])
+    # the real Index against the Lean ordered dictionary (the specification side of irun_refines)
+    n_spec = 150 if tier == 'quick' else 2500
+    shists = [spec_history(rng, rng.choice([10, 30, 60])) for _ in range(n_spec)]
+    rs = base.check_histories('C12', shists, ('result', 'state'), acceptor=acceptor, known=known, runner=layers.layer_chunk)
+    compared, bad = against_lean_spec(shists, rs['impl_out'], 'osop')
+    r['violations'] = list(r['violations']) + list(rs['violations'])
+    for b in bad[:2]:
+        h = shists[b['history']]
+        what = 'call #%d %s returns %s, the ordered dictionary DC.OSpec returns %s' % (b['op_index'], b['line'][:90], b['impl'][:60], b['spec'][:60])
+        r['violations'].append({'replay': {'property': 'C12', 'kind': 'spec-disagreement', 'cls': 'index', 'cfg': h['cfg'],
+                                           'ops': base.tag(h['ops'][:b['op_index'] + 1]), 'line': b['line'], 'impl': b['impl'], 'spec': b['spec'],
+                                           'acceptor': what, 'spec_part': 'DC.OSpec.step (lean/DC/Model/OSpec.lean); refinement theorem DC.Index.irun_refines'},
+                                'found_input': True, 'what': 'property violated on the implementation: ' + what})
+    r['divergent'] += rs['divergent']
     from concurrent.futures import ProcessPoolExecutor
-    n_cases = 16 if tier == 'quick' else 200
+    n_cases = 16 if tier == 'quick' else 64
     jobs = [(rng.getrandbits(48), tier) for _ in range(n_cases)]
     with ProcessPoolExecutor(max_workers=16) as ex:
         cases = list(ex.map(conc_case, jobs, chunksize=1))
@@ -286,6 +347,6 @@ def run(tier, seed, rng, known, replay):
         'rule': 'seeded Index operation sequences (lengths 10-60) over native and composite keys (1 and 1.0 one key), inline and file-backed values; scheduled clients with own handles on the same keys (single- and two-preemption schedules + random) linearized on the Lean model; '
                 'distinct = distinct (method, result) pairs',
         'samples': [base.sample(hists[0], r['impl_out'][0])], 'traces': len(hists),
-        'dist': dict(dist, histories=len(hists), divergent=r['divergent'], concurrent_cases=n_cases, concurrent_runs=conc_runs),
+        'dist': dict(dist, histories=len(hists), divergent=r['divergent'], concurrent_cases=n_cases, concurrent_runs=conc_runs, spec_histories=n_spec, results_compared_with_lean_spec=compared, spec_disagreements=len(bad)),
         'violations': r['violations'], 'known': r['known'],
     }
